@@ -224,16 +224,46 @@ Section SsUdp.
     end.
 
   (* ---------------- client: DatagramPacketCodec ---------------- *)
-  Record cstate := { cs_sess : usess; cs_filter : pw }.
-  Definition cstate_new (csid : N) : cstate :=      (* Session::from(Mode::Client): csid random, rest 0 *)
-    {| cs_sess := {| us_csid := csid; us_ssid := 0; us_pid := 0; us_user := None |}; cs_filter := pw_new |}.
+  (* `filters: Vec<(u64, PacketWindowFilter)>`: one replay window per SERVER session id, newest last *)
+  Definition MAX_SERVER_SESSIONS : N := 4.
+  Record cstate := { cs_sess : usess; cs_filters : list (N * pw) }.
+  Definition cstate_new (csid : N) : cstate :=      (* Session::from(Mode::Client): csid random, rest 0; Vec::with_capacity *)
+    {| cs_sess := {| us_csid := csid; us_ssid := 0; us_pid := 0; us_user := None |}; cs_filters := [] |}.
 
   Definition set_ssid (s : usess) (v : N) : usess :=
     {| us_csid := us_csid s; us_ssid := v; us_pid := us_pid s; us_user := us_user s |}.
   Definition set_pid (s : usess) (v : N) : usess :=
     {| us_csid := us_csid s; us_ssid := us_ssid s; us_pid := v; us_user := us_user s |}.
 
-  (* Decoder::decode: Ok (state, None) = nothing delivered (empty datagram, or packet id refused: dropped) *)
+  (* filters.iter().position(|(id, _)| *id == server_session_id): the FIRST entry of that id *)
+  Fixpoint filters_find (fs : list (N * pw)) (ssid : N) : option pw :=
+    match fs with
+    | [] => None
+    | (id, f) :: t => if id =? ssid then Some f else filters_find t ssid
+    end.
+  (* filter_of: the vector after find-or-create (the returned `&mut` points into it): an unknown id evicts the OLDEST
+     entry (index 0) when MAX_SERVER_SESSIONS are held and is pushed with PacketWindowFilter::default() *)
+  Definition filter_of (fs : list (N * pw)) (ssid : N) : list (N * pw) :=
+    match filters_find fs ssid with
+    | Some _ => fs
+    | None => (if N.of_nat (length fs) =? MAX_SERVER_SESSIONS then tl fs else fs) ++ [(ssid, pw_new)]
+    end.
+  (* `.validate_packet_id(pid, u64::MAX)` through that `&mut`: the window of the first entry of that id is replaced in place
+     (after filter_of there is such an entry; the [] case is not reached) *)
+  Fixpoint filters_validate_at (fs : list (N * pw)) (ssid pid : N) : list (N * pw) * bool :=
+    match fs with
+    | [] => ([], false)
+    | (id, f) :: t =>
+      if id =? ssid then let '(f', ok) := pw_validate f pid U64_MAX in ((id, f') :: t, ok)
+      else let '(t', ok) := filters_validate_at t ssid pid in ((id, f) :: t', ok)
+    end.
+  (* self.filter_of(server_session_id).validate_packet_id(packet_id, u64::MAX) *)
+  Definition client_validate (fs : list (N * pw)) (ssid pid : N) : list (N * pw) * bool :=
+    filters_validate_at (filter_of fs ssid) ssid pid.
+
+  (* Decoder::decode: Ok (state, None) = nothing delivered (empty datagram, datagram of another client session,
+     or packet id refused: dropped).  Both checks only when replay_protected, the session check FIRST: a datagram
+     addressed to another client session does not reach filter_of. *)
   Definition client_dgram_decode (cx : uctx) (replay_protected : bool) (now : N) (st : cstate) (src : bytes)
     : res (cstate * option (bytes * addr)) :=
     match src with
@@ -243,10 +273,11 @@ Section SsUdp.
       match r with
       | None => Ok (st, None)
       | Some (content, a, s) =>
-        let '(f', ok) := (if replay_protected then pw_validate (cs_filter st) (us_pid s) U64_MAX
-                          else (cs_filter st, true)) in
-        if ok then Ok ({| cs_sess := set_ssid (cs_sess st) (us_ssid s); cs_filter := f' |}, Some (content, a))
-        else Ok ({| cs_sess := cs_sess st; cs_filter := f' |}, None)
+        if replay_protected && negb (us_csid s =? us_csid (cs_sess st)) then Ok (st, None) else
+        let '(fs', ok) := (if replay_protected then client_validate (cs_filters st) (us_ssid s) (us_pid s)
+                           else (cs_filters st, true)) in
+        if ok then Ok ({| cs_sess := set_ssid (cs_sess st) (us_ssid s); cs_filters := fs' |}, Some (content, a))
+        else Ok ({| cs_sess := cs_sess st; cs_filters := fs' |}, None)
       end
     end.
 
@@ -256,7 +287,7 @@ Section SsUdp.
     if us_pid (cs_sess st) =? U64_MAX then (st, Err EOther)
     else
       let s' := set_pid (cs_sess st) ((us_pid (cs_sess st) + 1) mod 2 ^ 64) in    (* wrapping_add(1) *)
-      ({| cs_sess := s'; cs_filter := cs_filter st |}, ssu_encode cx now rnd pad s' a content).
+      ({| cs_sess := s'; cs_filters := cs_filters st |}, ssu_encode cx now rnd pad s' a content).
 
   (* ---------------- server: association task (UdpAssociateContext::relay) ---------------- *)
   Record astate := {
